@@ -82,6 +82,23 @@ def rxmJudge (f : Framing) (inputs : List String) (out : List String) : String :
     else "violates reused-message-as-fresh"
   | _ => "bad-op"
 
+/-- Steps `r:<mid>:<tok>:<pay>` / `d:<i>` of the Empty-ACK scenario → the message ID each step's request carries. -/
+def ackMids? (steps : List String) : Option (List Int) :=
+  let rec go : List String → List Int → List Int → Option (List Int)
+    | [], _, acc => some acc.reverse
+    | s :: r, news, acc =>
+      match s.splitOn ":" with
+      | ["r", mid, _, _] =>
+        match Driver.parseInt? mid with
+        | some mid => go r (news ++ [mid]) (mid :: acc)
+        | none => none
+      | ["d", i] =>
+        match i.toNat? with
+        | some i => match news[i]? with | some m => go r news (m :: acc) | none => none
+        | none => none
+      | _ => none
+  go steps [] []
+
 /-- `(<peer>:<datagram>)*` → datagrams per peer, in order. -/
 def perPeer (np : Nat) (sends : List String) : Option (List (List Bytes)) :=
   let parsed := sends.map fun s =>
@@ -141,7 +158,8 @@ def rxJudge (f : Framing) (inputs : List String) (out : List String) : String :=
     let want := match expected with
       | [] => []
       | m0 :: _ => m0 :: expected
-    if observed.length ≠ want.length then "skip"
+    -- the stream decoder yields exactly the frames of the stream, once each, in order
+    if observed.length ≠ want.length then "violates each-frame-once"
     else if (observed.zip want).all (fun (o, w) => o == some w) then "ok"
     else "violates owns-its-bytes"
   | _ => "bad-op"
@@ -180,6 +198,15 @@ def modelLine (fields : List String) : String :=
   | "rxudp" :: n :: dgrams =>
     match n.toNat? with
     | some n => if dgrams.length = n then rxLine .udp dgrams else "bad-op"
+    | none => "bad-op"
+  | "rxack" :: _n :: steps =>
+    match ackMids? steps with
+    | some mids =>
+      let ds := mids.filterMap fun mid =>
+        match marshalWithEncoder .udp { newMessage with msg := ⟨2, mid, 0, [], [], []⟩ } with
+        | .ok (wire, _) => some (Driver.toHex wire)
+        | .error _ => none
+      if ds.isEmpty then "rxack 0" else s!"rxack {ds.length} " ++ " ".intercalate ds
     | none => "bad-op"
   | "usrv2" :: _delay :: np :: _k :: sends =>
     match np.toNat? with
@@ -264,6 +291,14 @@ def judgeLine (inp out : List String) : String :=
     | _, _, _ => "bad-op"
   | "rxtcp" :: _split :: _na :: _nb :: frames, _ => rxJudge .tcp frames out
   | "rxudp" :: _n :: dgrams, _ => rxJudge .udp dgrams out
+  | "rxack" :: _n :: steps, "rxack" :: _k :: sent =>
+    match ackMids? steps with
+    | some mids =>
+      let ds := sent.filterMap Driver.parseHex?
+      -- every request (and every duplicate of it) is answered by an Empty ACK with its message ID and no token
+      if ds.length = sent.length ∧ ds.map CoapVerif.Spec.Rfc7252.parse = mids.map (fun mid => some ⟨2, mid, 0, [], [], []⟩)
+      then "ok" else "violates cached-reply-as-sent"
+    | none => "bad-op"
   | "usrv2" :: _delay :: np :: _k :: sends, _ =>
     match np.toNat? with
     | some np => usrv2Judge np sends out
